@@ -1,0 +1,16 @@
+//go:build verif
+
+// Package vhook provides yield points for external verification harnesses.
+// It is only active when the module is built with the "verif" build tag.
+package vhook
+
+// Gate, when non-nil, is invoked at every yield point with the name of the point.
+// A harness installs a blocking function here to control goroutine interleavings.
+var Gate func(point string)
+
+// Yield marks a scheduling point (an access to shared state follows).
+func Yield(point string) {
+	if g := Gate; g != nil {
+		g(point)
+	}
+}
